@@ -228,10 +228,10 @@ def gen_scenario(seed, opts):
                 deco += [["-lm"], ["-Wl,-x,-y"], ["-L."], ["-L", "d1"], ["-s"], ["-Xlinker", "--foo"], ["-static"], ["-shared"]]
             for _ in range(r.range(1, 2)):
                 argv += r.pick(deco)
-        if r.below(40) == 0:
+        if r.below(25) == 0:
             # options other drivers have and this one may grow: refused today (an early, clean failure), but if accepted they
             # must not change what a failing step means
-            argv.append(r.pick(["-pipe", "-save-temps", "-v", "-pthread", "-nostdlib", "-pedantic", "-Werror", "-r", "-rdynamic", "-march=native", "--verbose", "-time"]))
+            argv.append(r.pick(["-pipe", "-pipe", "-pipe", "-save-temps", "-v", "-pthread", "-nostdlib", "-pedantic", "-Werror", "-r", "-rdynamic", "-march=native", "--verbose", "-time"]))
         if xlang:
             argv += r.pick([["-x", xlang], ["-x" + xlang]])     # in front of the inputs (positional and global readings agree)
         names = [n for n, _ in inputs]
